@@ -1,21 +1,25 @@
 #!/bin/bash
-# run_seeded.sh <seeded-id> : apply the seeded change to a scratch worktree of /repo's HEAD and run the
-# quick check of its property against that tree (VERIF_REPO).  Output: one summary line + log in /tmp/seedrun/.
+# run_seeded.sh <seeded-id> [tier]: apply the seeded change to a scratch worktree of /repo's HEAD and run the
+# check of its property against that tree (VERIF_REPO).  Output: one summary line + log in /tmp/seedrun/.
+# The summary lists failed obligations of the engines first (deductive), then stand-in contract keys.
+HERE="$(cd "$(dirname "$0")/.." && pwd)"
 id=$1
+tier=${2:-quick}
 prop=${id%%-*}
-WT=/tmp/seedrun/wt-$id
+WT=/tmp/seedrun/wt-$id-$$
 mkdir -p /tmp/seedrun
-git -C /repo worktree remove --force $WT >/dev/null 2>&1
 git -C /repo worktree add --detach $WT HEAD >/dev/null 2>&1 || { echo "$id WORKTREE-FAILED"; exit 1; }
 cd $WT
-if ! git apply /verif/seeded/$id/patch.diff 2>/dev/null; then
-  if ! git apply --3way /verif/seeded/$id/patch.diff >/dev/null 2>&1; then
+if ! git apply $HERE/seeded/$id/patch.diff 2>/dev/null; then
+  if ! git apply --3way $HERE/seeded/$id/patch.diff >/dev/null 2>&1; then
      echo "$id PATCH-DOES-NOT-APPLY (source changed by a fix commit)"; cd /; git -C /repo worktree remove --force $WT; exit 0
   fi
 fi
-cd /verif
-VERIF_REPO=$WT ./check $prop --tier quick > /tmp/seedrun/$id.log 2>&1
+cd $HERE
+VERIF_REPO=$WT ./check $prop --tier $tier > /tmp/seedrun/$id.log 2>&1
 rc=$?
-keys=$(grep "violated:" /tmp/seedrun/$id.log | sed 's/ -- .*//; s/  violated: //' | sort -u | head -4 | tr '\n' ';')
-echo "$id rc=$rc $keys"
+all=$(grep "violated:" /tmp/seedrun/$id.log | sed 's/ -- .*//; s/  violated: //' | sort -u)
+ded=$(echo "$all" | grep -E '^(T-|F-|M-|attached:|call:|lemma:|[A-Z_a-z]+[.:][A-Za-z_]+[:.].*(post|loop|raise|at-|requires|frame|cover|keeps)|Length)' | head -4 | tr '\n' ';')
+std=$(echo "$all" | grep -E '^[a-z]+:(c|py|twin):' | head -3 | tr '\n' ';')
+echo "$id rc=$rc deductive=[$ded] standin=[$std]"
 cd /; git -C /repo worktree remove --force $WT >/dev/null 2>&1
